@@ -37,8 +37,8 @@ func verify2Cmd(args []string) {
 	}
 	pc := &PropConfig{Packages: fs.Args(), External: strings.Split(*ext, ",")}
 	for k, fc := range eng.CS.Funcs {
-		if fc.Trusted || fc.Iface || fc.Pkg == "" {
-			continue
+		if fc.Trusted || fc.Iface || (fc.Pkg == "" && *only == "") {
+			continue // contracts of external files only when asked for by name
 		}
 		if *only != "" && !strings.Contains(k, *only) {
 			continue
